@@ -352,6 +352,29 @@ def r5_join_agree(c, facts):
                         base = {'calls': base['calls'] + b2['calls'], 'args': base.get('args', set())}
         bnames = sorted({x.split('::')[-1] for x, _, _ in base['calls']} - {'deref', 'clone', 'as_ref', 'borrow'})
         shapes[q] = (names, bnames)
+        # what is done to the joined locator before it is used as a key: both sides must do the same (a normalisation
+        # applied by the loader alone registers the module under a locator the resolver never asks for)
+        import c02 as _c02
+        NEUTRAL = {'clone', 'branch', 'from_residual', 'map_err', 'unwrap', 'expect', 'deref', 'as_ref', 'borrow', 'into', 'from', 'ok', 'ok_or', 'ok_or_else', 'at', 'new', 'with'}
+        T = _c02.taint_forward(fn, [t['dest']['l']]) if 'l' in t['dest'] else set()
+        pnames = set()
+        for b3, t3 in fn.calls():
+            if (b3, t3) == (b, t) or not any(a.get('l') in T for a in t3['args']):
+                continue
+            nm = P.strip((callee_of(t3) or {}).get('def', '')).split('::')[-1]
+            locty = re.compile(r'^&?(mut )?(std::result::Result<)?&?(oal_model::)?locator::Locator\b')
+            if locty.match(t3['dest'].get('ty', '')) and any(a.get('l') in T and locty.match(a.get('ty', '')) for a in t3['args']) and nm and nm not in NEUTRAL:
+                pnames.add(nm)
+            for a in t3['args']:
+                if a.get('ty', '').startswith('{closure@'):
+                    for cl in facts.closures_of(fn):
+                        if a['ty'] == '{closure@%s}' % cl.d.get('span', '?') and cl.mir:
+                            for b4, t4 in cl.calls():
+                                n4 = P.strip((callee_of(t4) or {}).get('def', '')).split('::')[-1]
+                                if locty.match(t4['dest'].get('ty', '')) and n4 and n4 not in NEUTRAL:
+                                    pnames.add(n4)
+        posts = c.extra.setdefault('_join_posts', {})
+        posts[q] = sorted(pnames - {'map', 'and_then'})
         if q.endswith('declare_import'):
             # the base of the join is the locator of the module being resolved (a parameter), nothing computed
             params = {i for i in range(1, fn.mir['argc'] + 1) if 'Locator' in fn.mir['locals'][i]['ty']}
@@ -363,6 +386,13 @@ def r5_join_agree(c, facts):
             c.ok(R, {'fn': q, 'join_argument_from': names, 'base_from': bnames})
         else:
             c.bad(R, '%s:join-arg-not-import.module' % q, '%s joins something other than import.module() (got %s): the loader and the resolver disagree on the imported locator and the resolver panics on "unknown module"' % (q, names))
+    posts = c.extra.pop('_join_posts', {})
+    if len(posts) == 2:
+        pa, pb = posts[L], posts['oal_compiler::resolve::declare_import']
+        if pa != pb:
+            c.bad(R, 'joined-locator-treated-differently:%s:%s' % (','.join(pa) or '-', ','.join(pb) or '-'), 'module::load passes the joined locator through %s, declare_import through %s: the module is registered under one locator and looked up under another (`unknown module` panic on `use "m.oal#v1"`)' % (pa or 'nothing', pb or 'nothing'))
+        else:
+            c.ok(R, {'both': 'the joined locator is used as it is' if not pa else 'same treatment of the joined locator', 'via': pa})
     if len(shapes) == 2:
         a, b = shapes[L][0], shapes['oal_compiler::resolve::declare_import'][0]
         if a != b:
